@@ -135,7 +135,8 @@ Definition wf_check_gen (window : bool) (B : compiled) : bool :=
       && vars_ok (p_ids B) (p_names B)
       && forallb (fun al => mem_N (fst al) starts) (p_trace B)
   end.
-Definition wf_check : compiled -> bool := wf_check_gen true.
+(* the window of the VM's reader at /repo HEAD (CompilerGen.read_str_windowed, read from the source) *)
+Definition wf_check : compiled -> bool := wf_check_gen read_str_windowed.
 
 (* ---- the Prop ---- *)
 Definition wellformed_gen (window : bool) (B : compiled) : Prop :=
@@ -167,7 +168,7 @@ Definition wellformed_gen (window : bool) (B : compiled) : Prop :=
                                 handle_from_u32 id = k)) /\
     (* every trace entry is keyed by an instruction start *)
     (forall a l, In (a, l) (p_trace B) -> In (N.to_nat a) (map fst is)).
-Definition wellformed : compiled -> Prop := wellformed_gen true.
+Definition wellformed : compiled -> Prop := wellformed_gen read_str_windowed.
 
 (* "every instruction that can fail has a trace entry": Pop is the only instruction of the VM
    that cannot return an error *)
